@@ -537,6 +537,10 @@ func (x *Exec) contractCall(fr *Frame, st *State, callee *ssa.Function, fc *Func
 		o.Clause = rq.Src
 		x.vc.assume(Implies(st.Reach, g))
 	}
+	if pureScalarFn(callee, fc) {
+		// deterministic: one uninterpreted application, constrained by the ensures
+		return x.pureCallValue(fr, st, callee, fc, pkg, args)
+	}
 	pre := st.clone()
 	// frame
 	if fc.ModAll {
